@@ -211,7 +211,9 @@ def binVal (op : String) (a b : Val) : R Val :=
     if op = "==" then .ok (.bool (x == y)) else if op = "!=" then .ok (.bool (x != y)) else .stuck ("bool op " ++ op)
   | .str x, .str y =>
     if op = "==" then .ok (.bool (decide (x = y))) else if op = "!=" then .ok (.bool (decide (x ≠ y)))
-    else if op = "+" then .ok (.str (x ++ y)) else .stuck ("string op " ++ op)
+    else if op = "+" then .ok (.str (x ++ y))
+    else if op = "<" then .ok (.bool (decide (x < y)))          -- Go compares strings bytewise; `String.lt` is by code point: the same order
+    else .stuck ("string op " ++ op)
   | x, y =>
     if isNil x ∨ isNil y then
       -- an empty (non-nil) list is not nil in Go; the embedding identifies nil and empty slices
